@@ -115,9 +115,12 @@ class TimePointDumper(object):
                 properties += item_properties
             else:
                 expression += item
-        if not timepoint.truncated and timepoint.get_is_week_date():
-            # strftime directives are in calendar years, never week years.
-            timepoint = timepoint.to_calendar_date()
+        if not timepoint.truncated:
+            if timepoint.get_is_week_date():
+                # strftime directives are in calendar years, never week years.
+                timepoint = timepoint.to_calendar_date()
+            # There is no hour 24 in strftime: it is 00 on the next day.
+            timepoint = timepoint._normalised()
         return self._dump_expression_with_properties(
             timepoint, expression, properties)
 
